@@ -448,7 +448,7 @@ fn c15(_ctx: &Ctx, r: &mut Report) {
         }
     }
     // parameter patterns
-    let pats = ["a", "mut a", "ref a", "_", "(a, b)", "S { a, b }", "S { a, .. }", "[a, b]", "&a", "&mut a", "((a, b), c)", "W(a)", "W(_)", "a @ _", "r#fn", "box_", "(a)", "()", "[]", "S {}"];
+    let pats = ["f", "mut f", "a", "mut a", "ref a", "_", "(a, b)", "S { a, b }", "S { a, .. }", "[a, b]", "&a", "&mut a", "((a, b), c)", "W(a)", "W(_)", "a @ _", "r#fn", "box_", "(a)", "()", "[]", "S {}"];
     for p1 in pats {
         for p2 in ["", "x", "_", "(c, d)"] {
             let params = if p2.is_empty() { format!("{}: T0", p1) } else { format!("{}: T0, {}: T1", p1, p2) };
